@@ -362,6 +362,11 @@ Stopped == closed \/ parentCancelled
 
 \* C02 / C06: file order, nothing lost / duplicated / swapped (no stop so far)
 OrderInv == ~Stopped => IsPrefix(delivered, Expected)
+\* C02 as a refinement step: the pipeline implements a sequential scanner -- every step either leaves the delivered
+\* sequence alone or appends exactly the next object of the file (nothing duplicated, skipped or reordered), no stop so far
+DeliverStep == [][~Stopped' => (delivered' = delivered \/ (Len(delivered) < Len(Expected) /\ delivered' = Append(delivered, Expected[Len(delivered) + 1])))]_vars
+\* C09 as a step property: the offsets only move when a block is taken, and then previous := current
+OffsetStep == [][(cOff' # cOff \/ pOff' # pOff) => (cpc = "recv" /\ pOff' = cOff)]_vars
 \* C02 / C06: a scan that ended by itself delivered everything and reports the file's error
 CompleteInv == (sErr # Nil /\ ~Stopped) => (delivered = Expected /\ sErr = FinalErr)
 
